@@ -145,6 +145,17 @@ theorem expectSpec_toC (d : ℕ) (ψ : Array GQ) (P : Mat) (hψ : ψ.size = d) :
   rw [GQ.toC_mul, GQ.toC_mul, GQ.toC_conj]
   rfl
 
+theorem expect_ok (ψ : Array GQ) (P : Mat) (v : GQ) (h : expect ψ P = .ok v) :
+    P.n = ψ.size ∧ P.m = ψ.size ∧ v = expectRaw ψ P := by
+  unfold expect at h
+  split at h
+  · cases h
+  · split at h
+    · cases h
+    · rename_i h1 h2
+      simp only [Except.ok.injEq] at h
+      exact ⟨(not_not.mp h1).symm, not_not.mp h2, h.symm⟩
+
 /-! ### matrix operations -/
 
 theorem toM_mul (d : ℕ) (A B : Mat) (hA : A.Sq d) (hB : B.m = d) : (A.mul B).toM d = A.toM d * B.toM d := by
